@@ -134,6 +134,12 @@ Theorem C61_first_covering_line_is_passwdget :
 Proof. exact passwd_get_cases. Qed.
 Print Assumptions C61_first_covering_line_is_passwdget.
 
+(* the explicit fuel of the two QueryParams loops is always sufficient: the model is total on every input *)
+Theorem C61_model_never_runs_out_of_fuel :
+  forall e menu pl rules q, handle e menu pl rules q <> RFuel.
+Proof. exact handle_fuel. Qed.
+Print Assumptions C61_model_never_runs_out_of_fuel.
+
 (* hypotheses are satisfiable and the statements are not vacuous *)
 Example C61_ex_hypotheses :
   host_ok (e_myhost w_env) /\ path_ok w_good /\ no_userinfo w_plain /\ no_userinfo w_good /\ uncovered w_pl s_menu.
